@@ -15,6 +15,7 @@ import (
 	"bytes"
 	"flag"
 	"fmt"
+	"math"
 	"os"
 	"runtime"
 	"runtime/pprof"
@@ -194,6 +195,9 @@ func main() {
 			}
 			*nvec = 0
 		}
+		if *policy == "wait_compact" && !*big && *sweep == 0 && *nvec > 0 {
+			vecs = append(vecs, ttlBoundaryVectors()...)
+		}
 		for len(vecs) < *nvec {
 			vecs = append(vecs, genVector(r, names))
 			if len(vecs)%1500 == 0 {
@@ -211,6 +215,7 @@ func main() {
 			var bv []vector
 			if *bigPart != "b" {
 				vecs = append(vecs, lastPairVectors()...)
+				vecs = append(vecs, ttlBoundaryVectors()...)
 				vecs = append(vecs, dictionarySweep(names)...)
 				vecs = append(vecs, liveCollectionBig()...)
 				bv = bigVectors()
@@ -342,8 +347,9 @@ func main() {
 	stalls := 0
 	noReply := map[string]int{}
 	type pend struct {
-		id  string
-		req applyReq
+		id    string
+		req   applyReq
+		force bool // always placed behind two valid SETs (and before a valid write) in one request list
 	}
 	var queue []pend
 	pairFlushes := 0
@@ -364,7 +370,7 @@ func main() {
 		}
 		var entries [][]slot
 		for i := 0; i < len(queue); {
-			if r.Pick(2) == 0 {
+			if queue[i].force || r.Pick(2) == 0 {
 				nbSeq++
 				before := applyReq{dtype: node.RedisReq, args: bb([]string{"set", fmt.Sprintf("nb:a%d", nbSeq), "1"})}
 				var after applyReq
@@ -373,7 +379,12 @@ func main() {
 				} else {
 					after = applyReq{dtype: node.RedisReq, args: bb([]string{"setex", fmt.Sprintf("nb:e%d", nbSeq), "100000", "v"})}
 				}
-				entries = append(entries, []slot{{fmt.Sprintf("N%da", nbSeq), before}, {queue[i].id, queue[i].req}, {fmt.Sprintf("N%db", nbSeq), after}})
+				if queue[i].force {
+					before2 := applyReq{dtype: node.RedisReq, args: bb([]string{"set", fmt.Sprintf("nb:c%d", nbSeq), "2"})}
+					entries = append(entries, []slot{{fmt.Sprintf("N%da", nbSeq), before}, {fmt.Sprintf("N%dc", nbSeq), before2}, {queue[i].id, queue[i].req}, {fmt.Sprintf("N%db", nbSeq), after}})
+				} else {
+					entries = append(entries, []slot{{fmt.Sprintf("N%da", nbSeq), before}, {queue[i].id, queue[i].req}, {fmt.Sprintf("N%db", nbSeq), after}})
+				}
 				i++
 				continue
 			}
@@ -630,6 +641,33 @@ func main() {
 		}
 		argsH := encL(v.args)
 		vo.Printf("%s\t%s\t%s\t%s\n", id, argsH, v.base, v.mut)
+		jargsH := argsH // journal and vector file keep the symbolic TTL: a replay resolves it against its own clock
+		tsBound := false
+		for _, a := range v.args {
+			if bytes.HasPrefix(a, []byte("@ttlmax")) {
+				tsBound = true
+			}
+		}
+		if tsBound {
+			// "@ttlmax+k": the TTL (MaxUint32-1) - floor(ts/1s) + k for the timestamp the replicas' entries of this
+			// vector are applied with: the first value the store refuses (k=0) and its neighbours. The replica clock
+			// is moved to the first third of a second so that every apply of this vector sees the same second.
+			flushPair()
+			if cur := ts0 + (tick+1)*1000000; cur%1000000000 > 300000000 {
+				tick += (1000000000-cur%1000000000)/1000000 + 1
+			}
+			sec := (ts0 + (tick+1)*1000000) / 1000000000
+			na := make([][]byte, len(v.args))
+			for k, a := range v.args {
+				na[k] = a
+				if bytes.HasPrefix(a, []byte("@ttlmax")) {
+					off, _ := strconv.ParseInt(string(a[len("@ttlmax"):]), 10, 64)
+					na[k] = []byte(fmt.Sprint(int64(math.MaxUint32-1) - sec + off))
+				}
+			}
+			v.args = na
+			argsH = encL(v.args)
+		}
 		if sig := dangerClass(name, v.args); sig != "" && strings.Contains(","+*avoid+",", ","+sig+",") {
 			oo.Printf("L%s\tkind=%s verdict=avoided reply=avoided sig=%s\n", id, kind, sig)
 			continue
@@ -656,7 +694,7 @@ func main() {
 		facts := ln.facts(v.args)
 		co.Printf("L%s\tL\t%s\t%s\t%s\n", id, argsH, facts, floatTable(v.args))
 		flushAll()
-		fmt.Fprintf(jf, "%s\t%s\n", id, argsH)
+		fmt.Fprintf(jf, "%s\t%s\n", id, jargsH)
 
 		if noReply[name] >= 2 {
 			// this command has not answered twice already (each costs a client timeout): not sent again
@@ -834,17 +872,17 @@ func main() {
 			}
 		}
 
-		if r.Pick(40) == 0 {
+		if !tsBound && r.Pick(40) == 0 {
 			jumpTs()
 		}
 		step("pair:" + id)
 		// replica pair: only what the leader really accepted
 		if verdict == "prop" && ra.name != "dead" && name != "geoadd" {
-			if rq, ok := toApplyForm(v.args, len(queue)%3 == 2); ok {
-				queue = append(queue, pend{id, rq})
+			if rq, ok := toApplyForm(v.args, !tsBound && len(queue)%3 == 2); ok {
+				queue = append(queue, pend{id, rq, tsBound || v.mut == "ttl-boundary"})
 			}
 		}
-		if len(queue) >= flushAt {
+		if tsBound || len(queue) >= flushAt {
 			flushPair()
 			flushAt = 1 + r.Pick(6)
 		}
